@@ -23,7 +23,8 @@ inductive Res | eof | err
   deriving DecidableEq, Repr
 
 inductive Copier
-  | copying
+  | copying                   -- in (or about to call) Read on its source
+  | writing (chunk : List Nat) -- has read `chunk`, in Write on its destination
   | sending (r : Res)
   | done
   deriving DecidableEq, Repr
@@ -48,8 +49,12 @@ structure Cfg where
 structure St where
   dIn : List (List Nat)     -- chunks still readable from `down`
   uIn : List (List Nat)
-  dFin : Bool               -- down's peer has finished: EOF after the chunks
+  dFin : Bool               -- down's peer has finished writing: EOF after the chunks
   uFin : Bool
+  dGone : Bool              -- down's peer has closed completely: a Write to `down` fails
+  uGone : Bool
+  dStall : Bool             -- down's peer has stopped reading: a Write to `down` blocks (until `down` is closed locally)
+  uStall : Bool
   dClosed : Bool            -- Close() has been called on `down` (by PipeData or its caller)
   uClosed : Bool
   dOut : List Nat           -- bytes written to `down`
@@ -67,13 +72,18 @@ structure St where
   deriving Repr
 
 def init (dIn uIn : List (List Nat)) : St :=
-  { dIn := dIn, uIn := uIn, dFin := false, uFin := false, dClosed := false, uClosed := false,
+  { dIn := dIn, uIn := uIn, dFin := false, uFin := false, dGone := false, uGone := false, dStall := false, uStall := false,
+    dClosed := false, uClosed := false,
     dOut := [], uOut := [], cd := .copying, cu := .copying, chD := 0, chU := 0, chDr := .eof, chUr := .eof,
     mainDone := false, mainRes := none, callerDone := false, closeLog := [] }
 
 inductive Act
-  | finDown            -- environment: the peer of `down` finishes (EOF after pending chunks)
+  | finDown            -- environment: the peer of `down` finishes writing (EOF after pending chunks)
   | finUp
+  | goneDown           -- environment: the peer of `down` closes completely (implies finDown)
+  | goneUp
+  | stallDown          -- environment: the peer of `down` stops reading
+  | stallUp
   | stepD              -- copier D: one Read + Write, or observe end / failure
   | stepU
   | sendD              -- copier D: hand its result to the channel
@@ -100,22 +110,34 @@ def mainArm (c : Cfg) (s : St) (fromD : Bool) (r : Res) : St :=
 def step (c : Cfg) (s : St) : Act → Option St
   | .finDown => if s.dFin then none else some { s with dFin := true }
   | .finUp => if s.uFin then none else some { s with uFin := true }
+  | .goneDown => if s.dGone then none else some { s with dGone := true, dFin := true }
+  | .goneUp => if s.uGone then none else some { s with uGone := true, uFin := true }
+  | .stallDown => if s.dStall then none else some { s with dStall := true }
+  | .stallUp => if s.uStall then none else some { s with uStall := true }
   | .stepD =>
-      if s.cd ≠ .copying then none
-      else if s.dClosed then some { s with cd := .sending .err }          -- Read on a closed conn
-      else match s.dIn with
-        | chunk :: rest =>
-            if s.uClosed ∨ s.uFin then some { s with dIn := rest, cd := .sending .err } -- Write fails
-            else some { s with dIn := rest, uOut := s.uOut ++ chunk }
-        | [] => if s.dFin then some { s with cd := .sending .eof } else none  -- blocked in Read
+      match s.cd with
+      | .copying =>
+          if s.dClosed then some { s with cd := .sending .err }          -- Read on a locally closed conn
+          else match s.dIn with
+            | chunk :: rest => some { s with dIn := rest, cd := .writing chunk }
+            | [] => if s.dFin then some { s with cd := .sending .eof } else none  -- blocked in Read
+      | .writing chunk =>
+          if s.uClosed ∨ s.uGone then some { s with cd := .sending .err } -- Write fails
+          else if s.uStall then none                                       -- blocked in Write
+          else some { s with uOut := s.uOut ++ chunk, cd := .copying }
+      | _ => none
   | .stepU =>
-      if s.cu ≠ .copying then none
-      else if s.uClosed then some { s with cu := .sending .err }
-      else match s.uIn with
-        | chunk :: rest =>
-            if s.dClosed ∨ s.dFin then some { s with uIn := rest, cu := .sending .err }
-            else some { s with uIn := rest, dOut := s.dOut ++ chunk }
-        | [] => if s.uFin then some { s with cu := .sending .eof } else none
+      match s.cu with
+      | .copying =>
+          if s.uClosed then some { s with cu := .sending .err }
+          else match s.uIn with
+            | chunk :: rest => some { s with uIn := rest, cu := .writing chunk }
+            | [] => if s.uFin then some { s with cu := .sending .eof } else none
+      | .writing chunk =>
+          if s.dClosed ∨ s.dGone then some { s with cu := .sending .err }
+          else if s.dStall then none
+          else some { s with dOut := s.dOut ++ chunk, cu := .copying }
+      | _ => none
   | .sendD =>
       match s.cd with
       | .sending r =>
@@ -145,7 +167,7 @@ def step (c : Cfg) (s : St) : Act → Option St
         some { s with callerDone := true }
       else none
 
-def allActs : List Act := [.finDown, .finUp, .stepD, .stepU, .sendD, .sendU, .recvD, .recvU, .callerClose]
+def allActs : List Act := [.finDown, .finUp, .goneDown, .goneUp, .stallDown, .stallUp, .stepD, .stepU, .sendD, .sendU, .recvD, .recvU, .callerClose]
 
 /-- run a schedule; actions that are not enabled are skipped -/
 def run (c : Cfg) : St → List Act → St
@@ -171,7 +193,9 @@ def settle (c : Cfg) : Nat → St → St
       | none => s
 
 /-! ### line protocol: `pipe <pd|mux> <events…>` — events: `wd<n>` / `wu<n>` (n bytes arrive at down / up),
-    `cd` / `cu` (the peer of down / up closes).  After every event the program runs to quiescence.
+    `cd` / `cu` (the peer of down / up closes completely), `hd` / `hu` (it half-closes: end-of-stream for our
+    reads, still accepting our writes), `sd` / `su` (it stops reading: our writes block).
+    After every event the program runs to quiescence.
     Result: `ret=<nil|err|-> dOut=<n> uOut=<n> dClosed=<b> uClosed=<b> live=<k>`. -/
 
 def feed (s : St) (e : End) (n : Nat) : St :=
@@ -182,8 +206,12 @@ def feed (s : St) (e : End) (n : Nat) : St :=
 def applyEvent (c : Cfg) (s : St) (ev : String) : Option St :=
   let fuel := 64 + s.dIn.length + s.uIn.length
   match ev.toList with
-  | ['c', 'd'] => some (settle c fuel ((step c s .finDown).getD s))
-  | ['c', 'u'] => some (settle c fuel ((step c s .finUp).getD s))
+  | ['c', 'd'] => some (settle c fuel ((step c s .goneDown).getD s))
+  | ['c', 'u'] => some (settle c fuel ((step c s .goneUp).getD s))
+  | ['h', 'd'] => some (settle c fuel ((step c s .finDown).getD s))
+  | ['h', 'u'] => some (settle c fuel ((step c s .finUp).getD s))
+  | ['s', 'd'] => some (settle c fuel ((step c s .stallDown).getD s))
+  | ['s', 'u'] => some (settle c fuel ((step c s .stallUp).getD s))
   | 'w' :: 'd' :: n => (String.ofList n).toNat?.map (fun k => settle c fuel (feed s .down k))
   | 'w' :: 'u' :: n => (String.ofList n).toNat?.map (fun k => settle c fuel (feed s .up k))
   | _ => none
@@ -222,8 +250,8 @@ def handleLife (toks : List String) : String :=
       let c := genCfg .both
       -- one run of each hop with the scenario's closing side; the leak per hop is what the model leaves alive
       let acts : List Act := if closer = "target"
-        then [.finUp, .stepU, .sendU, .recvU, .stepD, .sendD, .callerClose]
-        else [.finDown, .stepD, .sendD, .recvD, .stepU, .sendU, .callerClose]
+        then [.goneUp, .stepU, .sendU, .recvU, .stepD, .sendD, .callerClose]
+        else [.goneDown, .stepD, .sendD, .recvD, .stepU, .sendU, .callerClose]
       let s := settle c 64 (run c (init [] []) acts)
       let grow := 2 * liveCopiers s
       let spin := ending = "garbage" ∧ Gen.acceptOtherErr ≠ "return" ∧ "smux.ErrInvalidProtocol" ∉ Gen.acceptTerminalErrs
